@@ -207,8 +207,19 @@ def extract(tree):
                 raise ExtractError("%s: no MARK case" % f)
             j = body.index("break;", m.end())
             body = body[m.end():j]
-        for callee, arg in sites(body):
-            table.append((f, callee, arg))
+        rows = [(f, callee, arg) for callee, arg in sites(body)]
+        if f in [x[1] for x in RING_WALKS]:
+            # the loops over the queue all have the same body (asserted by ring_walk, which also regenerates their bounds):
+            # list its marking calls once, with the index variable spelled `i`
+            for v in set(re.findall(r"\bfor\s*\(\s*(?:\w+\s+)?(\w+)\s*=", body)):
+                rows = [(a, b, c.replace("[%s]" % v, "[i]")) for a, b, c in rows]
+            seen, uniq = set(), []
+            for r in rows:
+                if r not in seen:
+                    seen.add(r)
+                    uniq.append(r)
+            rows = uniq
+        table += rows
     info["markSites"] = table
     # nested funcdefs: either the plain loop, or (since a60a379) one marking level per nested funcdef while one is left
     fd = norm(csrc.func_body(gc, "janet_mark_funcdef"))
@@ -264,6 +275,266 @@ def _eval_pred(expr, var, status, where):
         except Exception as ex:
             raise ExtractError("%s: cannot evaluate status predicate (%s)" % (where, ex))
     return sorted(out)
+
+
+# ---------------------------------------------------------------------------------------------------------------------
+# ring walks of the mark phase: the loops that visit a JanetQueue (janet_vm.spawn, a channel's pending queues and items)
+RING_WALKS = [("src/core/ev.c", "janet_ev_mark", "ringWalkEvMark"), ("src/core/ev.c", "janet_chanat_mark_fq", "ringWalkChanFq"),
+              ("src/core/ev.c", "janet_chanat_mark", "ringWalkChanItems")]
+_QFIELD = {"head": "head", "tail": "tail", "capacity": "cap"}
+
+
+def _paren_end(src, i):
+    """src[i] == '(' -> index of the matching ')'"""
+    depth = 0
+    while i < len(src):
+        if src[i] == "(":
+            depth += 1
+        elif src[i] == ")":
+            depth -= 1
+            if depth == 0:
+                return i
+        i += 1
+    raise ExtractError("unbalanced parentheses")
+
+
+def _stmt_end(src, i):
+    """end (exclusive) of the statement that starts at src[i:] : a braced block, or up to the next `;` (nested for/if followed)"""
+    while src[i] in " \t\r\n":
+        i += 1
+    if src[i] == "{":
+        return csrc.match_brace(src, i)
+    m = re.match(r"(for|if|while)\s*\(", src[i:])
+    if m:
+        j = _paren_end(src, i + m.end() - 1) + 1
+        e = _stmt_end(src, j)
+        m2 = re.match(r"\s*else\b", src[e:])
+        if m.group(1) == "if" and m2:
+            return _stmt_end(src, e + m2.end())
+        return e
+    return src.index(";", i) + 1
+
+
+def _split_cmp(text):
+    """`a OP b` -> (a, OP, b) for the first top-level <, <=, >, >=, != (the `>` of `->` is not an operator)"""
+    i, depth = 0, 0
+    while i < len(text):
+        c = text[i]
+        if c in "([":
+            depth += 1
+        elif c in ")]":
+            depth -= 1
+        elif depth == 0:
+            if text.startswith("->", i):
+                i += 2
+                continue
+            for op in ("<=", ">=", "!=", "<", ">"):
+                if text.startswith(op, i):
+                    return text[:i].strip(), op, text[i + len(op):].strip()
+        i += 1
+    return None
+
+
+class _RingCtx:
+    def __init__(self, fname):
+        self.fname, self.queue = fname, None
+        self.marks = []       # per ring loop: the marking calls of its body (index variable renamed to i)
+
+    def same_marks(self):
+        """every loop of the walk passes the same fields of the element to the collector"""
+        if any(m != self.marks[0] for m in self.marks[1:]):
+            raise ExtractError("%s: the loops over the queue do not mark the same fields: %s" % (self.fname, self.marks))
+        return self.marks[0]
+
+    def term(self, t):
+        t = norm(t)
+        while t.startswith("(") and t.endswith(")") and _paren_end(t, 0) == len(t) - 1:
+            t = t[1:-1]
+        t = re.sub(r"^\((?:int32_t|uint32_t|size_t|int)\)", "", t)
+        if t == "0":
+            return "zero"
+        m = re.fullmatch(r"([\w.\->]*?)(?:->|\.)(head|tail|capacity)", t)
+        if not m:
+            raise ExtractError("%s: ring walk uses a term that is not 0 / head / tail / capacity of the queue: `%s`" % (self.fname, t))
+        if self.queue is None:
+            self.queue = m.group(1)
+        elif self.queue != m.group(1):
+            raise ExtractError("%s: ring walk mixes two queues (`%s`, `%s`)" % (self.fname, self.queue, m.group(1)))
+        return _QFIELD[m.group(2)]
+
+    def cmp(self, lhs, op, rhs):
+        """normalised comparison (lhs, op in lt/le/ne, rhs)"""
+        ops = {"<": "lt", "<=": "le", "!=": "ne"}
+        if op in (">", ">="):
+            lhs, rhs, op = rhs, lhs, {">": "<", ">=": "<="}[op]
+        if op not in ops:
+            raise ExtractError("%s: ring walk comparison `%s` not recognised" % (self.fname, op))
+        return lhs, ops[op], rhs
+
+
+def _ring_loops(ctx, src, aliases):
+    """for-loops over a queue index in `src` (a statement list), in order -> [(init, cmp, bound, step)]; loops that mention no
+    queue field (e.g. the timer-heap loop of janet_ev_mark) are skipped"""
+    loops = []
+    i = 0
+    while True:
+        m = re.compile(r"\bfor\s*\(").search(src, i)
+        if not m:
+            break
+        e = _paren_end(src, m.end() - 1)
+        head = src[m.end():e]
+        body_end = _stmt_end(src, e + 1)
+        body = src[e + 1:body_end]
+        i = body_end
+        parts = head.split(";")
+        if len(parts) != 3:
+            raise ExtractError("%s: for-loop header not recognised: `%s`" % (ctx.fname, norm(head)))
+        for a, full in aliases.items():
+            parts = [re.sub(r"\b%s\b" % re.escape(a), full, x) for x in parts]
+        if not re.search(r"(?:->|\.)(head|tail|capacity)\b", head) and not any(a in head for a in aliases):
+            continue
+        mi = re.fullmatch(r"\s*(?:(?:u?int32_t|size_t|int)\s+)?(\w+)\s*=\s*(.+?)\s*", parts[0], re.S)
+        if not mi:
+            raise ExtractError("%s: ring loop initialiser not recognised: `%s`" % (ctx.fname, norm(parts[0])))
+        v = mi.group(1)
+        init = ctx.term(mi.group(2))
+        mc = _split_cmp(parts[1])
+        if not mc:
+            raise ExtractError("%s: ring loop condition not recognised: `%s`" % (ctx.fname, norm(parts[1])))
+        lhs, op, rhs = ctx.cmp(*mc)
+        if lhs != v:
+            raise ExtractError("%s: ring loop condition does not test the index on the left: `%s`" % (ctx.fname, norm(parts[1])))
+        bound = ctx.term(rhs)
+        st = norm(parts[2])
+        if st in (v + "++", "++" + v, v + "+=1", "%s=%s+1" % (v, v)):
+            step = "inc"
+        else:
+            ms = re.fullmatch(r"%s=\(?\(?%s\+1(<|!=|==|>=)(.+?)\)?\?(.+?):(.+?)\)?" % (v, v), st)
+            step = None
+            if ms:
+                capt = ctx.term(ms.group(2))
+                a, b = ms.group(3).strip("()"), ms.group(4).strip("()")
+                if capt == "cap" and ((ms.group(1) in ("<", "!=") and a == v + "+1" and b == "0") or
+                                      (ms.group(1) in ("==", ">=") and a == "0" and b == v + "+1")):
+                    step = "wrapInc"
+            if step is None:
+                raise ExtractError("%s: ring loop step not recognised: `%s`" % (ctx.fname, st))
+        nb = norm(body)
+        if re.search(r"\b(break|continue|goto|return)\b", body) or re.search(r"(?<![\w\]])%s(\+\+|--|[-+*/]?=[^=])" % v, nb) or ("++" + v) in nb or ("--" + v) in nb:
+            raise ExtractError("%s: ring loop body alters the index or leaves the loop early" % ctx.fname)
+        marks = [(c, a.replace("[%s]" % v, "[i]")) for c, a in sites(body)]
+        if not marks or any("[i]" not in a for c, a in marks):
+            raise ExtractError("%s: ring loop body does not mark the element at the index (`%s`)" % (ctx.fname, marks))
+        ctx.marks.append(marks)
+        loops.append((init, op, bound, step))
+    return loops
+
+
+def ring_walk(fname, body):
+    """(kind, cond, then-loops, else-loops): the structure of the loops by which `fname` visits its JanetQueue"""
+    ctx = _RingCtx(fname)
+    inner = body.strip()[1:-1]
+    # local aliases `JanetQueue *items = &chan->items;` are expanded so that every term names the queue itself
+    aliases = {}
+    for m in re.finditer(r"\bJanetQueue\s*\*\s*(\w+)\s*=\s*&\s*([\w.\->]+)\s*;", inner):
+        aliases[m.group(1)] = m.group(2)
+    aliases = {a: (f + "@") for a, f in aliases.items()}       # `items->head` -> `chan->items@->head`
+    m = None
+    for m0 in re.finditer(r"\bif\s*\(", inner):
+        e = _paren_end(inner, m0.end() - 1)
+        c = inner[m0.end():e]
+        for a, full in aliases.items():
+            c = re.sub(r"\b%s\b" % re.escape(a), full, c)
+        if re.search(r"(?:->|\.)(head|tail|capacity)\b", c):
+            m = (m0, e, c)
+            break
+    fix = lambda t: t.replace("@->", ".").replace("@.", ".")
+    if m is None:
+        loops = _ring_loops(ctx, fix(inner), {a: fix(f + "->").rstrip(".") for a, f in aliases.items()})
+        if not loops:
+            raise ExtractError("%s: no loop over the queue found" % fname)
+        ctx.same_marks()
+        return ("seq", None, loops, [])
+    m0, e, c = m
+    mc = _split_cmp(fix(c))
+    if not mc:
+        raise ExtractError("%s: ring walk branch condition not recognised: `%s`" % (fname, norm(c)))
+    lhs, op, rhs = ctx.cmp(*mc)
+    cond = (ctx.term(lhs), op, ctx.term(rhs))
+    t_end = _stmt_end(inner, e + 1)
+    then_src = inner[e + 1:t_end]
+    me = re.match(r"\s*else\b", inner[t_end:])
+    else_src = ""
+    rest_start = t_end
+    if me:
+        x_end = _stmt_end(inner, t_end + me.end())
+        else_src = inner[t_end + me.end():x_end]
+        rest_start = x_end
+    al = {a: fix(f + "->").rstrip(".") for a, f in aliases.items()}
+    before = _ring_loops(ctx, fix(inner[:m0.start()]), al)
+    after = _ring_loops(ctx, fix(inner[rest_start:]), al)
+    if before or after:
+        raise ExtractError("%s: loops over the queue outside the head/tail branch" % fname)
+    t, e2 = _ring_loops(ctx, fix(then_src), al), _ring_loops(ctx, fix(else_src), al)
+    if not t or not e2:
+        raise ExtractError("%s: a branch of the head/tail test has no loop over the queue" % fname)
+    ctx.same_marks()
+    return ("ite", cond, t, e2)
+
+
+def ring_walks(tree):
+    out = []
+    for rel, f, lean in RING_WALKS:
+        src = csrc.strip_comments(csrc.read(tree, rel))
+        out.append((f, lean, ring_walk(f, csrc.func_body(src, f))))
+    return out
+
+
+def render_ring_walks(walks):
+    L = []
+    L.append("/-- the loops by which the mark phase visits a JanetQueue (ring buffer: head, tail, capacity), as written in the source:")
+    L.append("`for (i = init; i cmp bound; step)` with terms 0 / q.head / q.tail / q.capacity, `step` either `i++` or")
+    L.append("`i = i + 1 < capacity ? i + 1 : 0`, optionally under one `if (lhs cmp rhs) … else …`.  Interpreted by GC/RingMark.lean. -/")
+    L.append("inductive QTerm where | head | tail | cap | zero deriving DecidableEq, Repr")
+    L.append("inductive QCmp where | lt | le | ne deriving DecidableEq, Repr")
+    L.append("inductive QStep where | inc | wrapInc deriving DecidableEq, Repr")
+    L.append("structure ForLoop where\n  init : QTerm\n  cmp : QCmp\n  bound : QTerm\n  step : QStep\n  deriving DecidableEq, Repr")
+    L.append("inductive RingWalk where\n  | seq (loops : List ForLoop)\n  | ite (lhs : QTerm) (cmp : QCmp) (rhs : QTerm) (thenLoops elseLoops : List ForLoop)\n  deriving DecidableEq, Repr")
+    def loops(ls):
+        return "[" + ", ".join("⟨.%s, .%s, .%s, .%s⟩" % l for l in ls) + "]"
+    for f, lean, (kind, cond, a, b) in walks:
+        L.append("/-- %s -/" % f)
+        if kind == "seq":
+            L.append("abbrev %s : RingWalk := .seq %s" % (lean, loops(a)))
+        else:
+            L.append("abbrev %s : RingWalk := .ite .%s .%s .%s %s %s" % ((lean,) + cond + (loops(a), loops(b))))
+    L.append("abbrev ringWalks : List (String × RingWalk) := [" + ", ".join('("%s", %s)' % (f, lean) for f, lean, _ in walks) + "]\n")
+    return "\n".join(L)
+
+
+# ---------------------------------------------------------------------------------------------------------------------
+# the sweep's side effect on the symbol cache
+def symcache_facts(tree):
+    """janet_sweep -> janet_deinit_block(case JANET_MEMORY_SYMBOL) -> janet_symbol_deinit, and what the latter / the lookup
+    write into a vacated bucket.  The shapes of symcache.c are recognised by C03's translator (tools/gen/value.py, imported
+    read-only); GC/SymSweep.lean composes C03's cache model with `collect`."""
+    from . import value as gen_value
+    c, _ = gen_value.extract(tree)
+    sc = c["_sym"]
+    gc = csrc.strip_comments(csrc.read(tree, "src/core/gc.c"))
+    db = norm(csrc.func_body(gc, "janet_deinit_block"))
+    m = re.search(r"caseJANET_MEMORY_SYMBOL:janet_symbol_deinit\(\(\(JanetStringHead\*\)mem\)->data\);break;", db)
+    if not m:
+        raise ExtractError("janet_deinit_block: `case JANET_MEMORY_SYMBOL: janet_symbol_deinit(((JanetStringHead *) mem)->data); break;` not recognised")
+    if db.count("janet_symbol_deinit") != 1:
+        raise ExtractError("janet_deinit_block: more than one call of janet_symbol_deinit")
+    sw = norm(csrc.func_body(gc, "janet_sweep"))
+    # both freeing passes: deinit, unlink, free - in that order, once each
+    n = len(re.findall(r"janet_deinit_block\(current\);if\(NULL!=previous\)\{previous->data\.next=next;\}else\{janet_vm\.(?:weak_)?blocks=next;\}janet_free\(current\);", sw))
+    if n != 2 or sw.count("janet_deinit_block(") != 2:
+        raise ExtractError("janet_sweep: the two freeing passes (deinit / unlink / free) not recognised")
+    return {"symMoveVacatedDeleted": sc["symMoveVacatedDeleted"], "symDeinitWritesDeleted": sc["symDeinitWritesDeleted"],
+            "symCacheInitCap": sc["symCacheInitCap"], "sweepDeinitsFreedSymbols": True}
 
 
 def render(tree):
@@ -327,8 +598,19 @@ def render(tree):
     out.append("abbrev maybeCollectGe : Bool := %s" % ("true" if info["maybeCollectGe"] else "false"))
     out.append("/-- janet_init: initial gc_interval -/")
     out.append("abbrev initialGcInterval : Nat := %d\n" % info["initialGcInterval"])
+    walks = ring_walks(tree)
+    out.append(render_ring_walks(walks))
+    sf = symcache_facts(tree)
+    out.append("/-- symcache.c as the sweep uses it: what janet_symcache_findmem / janet_symbol_deinit store into a vacated bucket")
+    out.append("(true = the tombstone JANET_SYMCACHE_DELETED, false = NULL), initial capacity, and: every block freed by either pass")
+    out.append("of janet_sweep goes through janet_deinit_block, whose JANET_MEMORY_SYMBOL case calls janet_symbol_deinit on the block's bytes -/")
+    out.append("abbrev symMoveVacatedDeleted : Bool := %s" % ("true" if sf["symMoveVacatedDeleted"] else "false"))
+    out.append("abbrev symDeinitWritesDeleted : Bool := %s" % ("true" if sf["symDeinitWritesDeleted"] else "false"))
+    out.append("abbrev symCacheInitCap : Nat := %d" % sf["symCacheInitCap"])
+    out.append("abbrev sweepDeinitsFreedSymbols : Bool := %s\n" % ("true" if sf["sweepDeinitsFreedSymbols"] else "false"))
     out.append("end JanetModel.Gen.GC\n")
-    return "\n".join(out), {"recursionGuard": info["recursionGuard"], "markSites": len(info["markSites"]), "memoryTypes": len(mem),
+    return "\n".join(out), {"symcache": sf, "ringWalks": {f: [kind, list(cond) if cond else None, [list(x) for x in a], [list(x) for x in b]] for f, _, (kind, cond, a, b) in walks},
+                            "recursionGuard": info["recursionGuard"], "markSites": len(info["markSites"]), "memoryTypes": len(mem),
                             "unrootallRescans": info["unrootallRescans"], "idequalsAlways": info["idequalsAlways"],
                             "rootGrowMul": info["rootGrowMul"], "intervalMul": info["intervalMul"], "suspendSites": info["suspendSites"],
                             "maybeCollectGe": info["maybeCollectGe"], "initialGcInterval": info["initialGcInterval"]}
